@@ -575,13 +575,39 @@ fn main() {
         std::thread::spawn(move || {
             let mut last = (u64::MAX, 0u64);
             let mut since = std::time::Instant::now();
+            // Wall-clock alone is no verdict on a loaded machine: the case thread (the main thread) must
+            // also have been asleep (blocked on a lock: deadlock) in nearly every sample, or have burnt
+            // CPU for most of the period (busy loop). A runnable but starved thread is neither.
+            let main_stat = format!("/proc/self/task/{}/stat", std::process::id());
+            let sample = || -> Option<(char, u64)> {
+                let txt = std::fs::read_to_string(&main_stat).ok()?;
+                let rest = &txt[txt.rfind(')')? + 2..];
+                let f: Vec<&str> = rest.split_whitespace().collect();
+                Some((f.first()?.chars().next()?, f.get(11)?.parse::<u64>().ok()? + f.get(12)?.parse::<u64>().ok()?))
+            };
+            let (mut samples, mut asleep, mut cpu0) = (0u64, 0u64, sample().map(|x| x.1).unwrap_or(0));
             loop {
                 std::thread::sleep(std::time::Duration::from_millis(500));
                 let now = (current.load(Ordering::SeqCst), PROGRESS.load(Ordering::SeqCst));
+                let st = sample();
                 if now != last {
                     last = now;
                     since = std::time::Instant::now();
-                } else if since.elapsed().as_secs() >= limit_s {
+                    samples = 0;
+                    asleep = 0;
+                    cpu0 = st.map(|x| x.1).unwrap_or(cpu0);
+                    continue;
+                }
+                samples += 1;
+                if matches!(st, Some(('S', _)) | Some(('D', _))) {
+                    asleep += 1;
+                }
+                let cpu_s = st.map(|x| x.1.saturating_sub(cpu0)).unwrap_or(0) / 100;
+                let blocked = asleep * 10 >= samples * 9;
+                let busy = cpu_s * 10 >= limit_s * 6;
+                // (without /proc the old wall-clock rule applies, 8x more patient)
+                let hung = if st.is_some() { blocked || busy } else { since.elapsed().as_secs() >= 8 * limit_s };
+                if since.elapsed().as_secs() >= limit_s && hung {
                     let mut r = match rep.try_lock() {
                         Ok(r) => r,
                         Err(_) => std::process::exit(9),
